@@ -30,7 +30,9 @@ CLASSES = (
     "floating-point state (np.errstate raise, warnings as errors), user subclasses overriding public hooks, time "
     "grids with bit-equal steps / repeated stamps / one stamp / integer dtype, schedules as lists or Series, "
     "unknown-name arguments (pieces, paddings, case variants), records out of time order with repeated stamps and "
-    "leading zeros"
+    "leading zeros, the same functions / simulations called from several THREADS at once (module-level scratch buffers "
+    "and caches are looked for), shallow copies of objects, tables whose pseudopressure is referenced to a pressure "
+    "inside the table (negative values), user-supplied interpolator objects of any kind"
 )
 
 os.makedirs(OUT, exist_ok=True)
